@@ -20,6 +20,13 @@
 #include <string.h>
 #include "xraylib.h"
 
+/* hidden-state poisoning: the library must not READ errno (or any other thread state the application may have left behind).
+   Before every operation the driver leaves a different value there, as an application that has just overflowed a strtod, taken
+   the log of a negative number or failed an allocation would; the answers must not depend on it.  (Seeded changes C02-9, C06-9,
+   C07-9, C12-9, C15-10, C16-7: "errno == ERANGE" tests without clearing errno first.) */
+#include <errno.h>
+static void xv_poison_errno(void) { static unsigned k; static const int v[4] = {ERANGE, EDOM, ENOMEM, 0}; errno = v[k++ & 3]; }
+
 static char buf[1 << 16];
 #define NULL_TOKEN "%NULL%"     /* reserved argument of the *_name / mendel_z lines: the function is called with a NULL pointer */
 
@@ -197,6 +204,7 @@ int main(int argc, char **argv) {
     return 0;
   }
   while (fgets(buf, sizeof buf, stdin)) {
+    xv_poison_errno();
     char *cmd, *a1, *a2;
     size_t n = strlen(buf);
     if (n && buf[n - 1] == '\n') buf[--n] = 0;
